@@ -3,6 +3,7 @@ simulated ones, resets process-global miros state in place between runs,
 fingerprints the tree and enables pre-emption events on miros' code objects."""
 import builtins
 import collections
+import copy
 import datetime as _datetime
 import hashlib
 import importlib
@@ -175,6 +176,7 @@ def install():
   # pprint module used as pprint.pprint in hsm.pp: pp is replaced above
   _adopt_module_locks()
   _enable_events()
+  _snapshot_containers()
   _installed = True
   return mods
 
@@ -325,10 +327,73 @@ def fingerprint():
 
 
 _defaults = {}
+_containers = []      # (container object, shallow copy of its contents at install time)
+_PLAIN = (list, dict, set, collections.deque, collections.OrderedDict)
+
+
+def _snapshot_containers():
+  """every plain mutable container that lives for the whole process inside miros - module globals, class
+  attributes, default arguments of functions and methods - with its contents at install time.  miros today has
+  none that matters between runs; a change that introduces one (a class-level cache, a mutable default argument)
+  would otherwise carry state from one simulated run into the next and make a run depend on which runs the worker
+  process executed before it (replay files would stop reproducing)."""
+  seen = set()
+
+  def take(v):
+    if type(v) in _PLAIN and id(v) not in seen:
+      seen.add(id(v))
+      _containers.append((v, copy.copy(v)))
+
+  def take_function(f):
+    for d in (getattr(f, '__defaults__', None) or ()):
+      take(d)
+    for d in (getattr(f, '__kwdefaults__', None) or {}).values():
+      take(d)
+
+  for short in sorted(mods):
+    m = mods[short]
+    for k in sorted(m.__dict__.keys()):
+      v = m.__dict__[k]
+      if k.startswith('__'):
+        continue
+      take(v)
+      if isinstance(v, types.FunctionType) and v.__module__ == m.__name__:
+        take_function(v)
+      elif isinstance(v, type) and v.__module__ == m.__name__:
+        for kk in sorted(v.__dict__.keys()):
+          vv = v.__dict__[kk]
+          if kk.startswith('__') and kk != '__init__':
+            continue
+          take(vv)
+          vv = getattr(vv, '__func__', vv)
+          vv = getattr(vv, '__wrapped__', vv) if not isinstance(vv, types.FunctionType) else vv
+          if isinstance(vv, types.FunctionType):
+            take_function(vv)
+            w = getattr(vv, '__wrapped__', None)
+            if isinstance(w, types.FunctionType):
+              take_function(w)
+
+
+def _restore_containers():
+  for obj, snap in _containers:
+    try:
+      if obj == snap:
+        continue
+      if isinstance(obj, list):
+        obj[:] = snap
+      elif isinstance(obj, collections.deque):
+        obj.clear()
+        obj.extend(snap)
+      else:
+        obj.clear()
+        obj.update(snap)
+    except Exception:
+      pass
 
 
 def reset_globals():
   """in-place reset of the process-global miros state (start of every run)"""
+  _restore_containers()
   ev = mods['event']
   hsm = mods['hsm']
   ao = mods['activeobject']
